@@ -388,6 +388,17 @@ Proof.
   split; [reflexivity|]. split; [apply Z.div_pos; lia|apply Z.mod_pos_bound; lia].
 Qed.
 
+Theorem even_split_even_explicit total n :
+  0 <= total < two63 -> (0 < n)%nat ->
+  even_split total n =
+    Some (repeat (total / Z.of_nat n) (n - 1) ++ [total / Z.of_nat n + total mod Z.of_nat n]) /\
+  0 <= total / Z.of_nat n /\ 0 <= total mod Z.of_nat n < Z.of_nat n.
+Proof.
+  intros Ht Hn. destruct (even_split_even total n Ht Hn) as [E H].
+  split; [|exact H]. rewrite E. destruct n as [|m]; [inversion Hn|].
+  unfold ideal_shares. rewrite Nat.sub_succ, Nat.sub_0_r. reflexivity.
+Qed.
+
 Lemma ideal_shares_sum fee n : (0 < n)%nat -> sumZ (ideal_shares fee n) = fee.
 Proof.
   intros Hn. destruct n as [|m]; [lia|]. unfold ideal_shares.
@@ -549,3 +560,507 @@ Proof.
   rewrite (add_input_complete _ _ _ Hc). cbn [bind length]. rewrite even_split_exact by apply w64_range.
   eauto.
 Qed.
+
+(* ====================================================================================
+   redemption
+   ==================================================================================== *)
+(* the request outputs the loop builds *)
+Fixpoint req_outs (reqs : list request) (sh : list Z) : list output :=
+  match reqs, sh with
+  | r :: t, s :: st => (r_script r, sub64 (w64 (r_amount r - r_treasury r)) s) :: req_outs t st
+  | _, _ => []
+  end.
+
+Lemma red_loop_spec reqs : forall sh outs a b o tf tr,
+  red_loop reqs sh outs (w64 a) (w64 b) = Some (o, tf, tr) ->
+  (length reqs <= length sh)%nat /\
+  o = outs ++ req_outs reqs sh /\
+  tf = w64 (a + sumZ (firstn (length reqs) sh)) /\
+  tr = w64 (b + sumZ (values (req_outs reqs sh))).
+Proof.
+  induction reqs as [|r reqs IH]; intros sh outs a b o tf tr; cbn [red_loop length firstn req_outs].
+  - intros [= <- <- <-]. rewrite app_nil_r. cbn [values map]. rewrite sumZ_nil, !Z.add_0_r.
+    repeat split. lia.
+  - destruct sh as [|s st]; [discriminate|]. unfold add64 at 1 2. rewrite !w64_add_l.
+    intros H. apply IH in H as (Hl & -> & -> & ->). cbn [length firstn values map snd].
+    fold (values (req_outs reqs st)). rewrite !sumZ_cons, <- app_assoc.
+    repeat split; try lia; try (f_equal; lia).
+Qed.
+
+Lemma red_loop_complete reqs : forall sh outs tf tr,
+  (length reqs <= length sh)%nat -> exists res, red_loop reqs sh outs tf tr = Some res.
+Proof.
+  induction reqs as [|r reqs IH]; intros sh outs tf tr H; cbn [red_loop]; [eauto|].
+  destruct sh as [|s st]; cbn [length] in H; [lia|]. apply IH. lia.
+Qed.
+
+Lemma req_outs_scripts reqs : forall sh,
+  (length reqs <= length sh)%nat ->
+  scripts (req_outs reqs sh) = map r_script reqs /\ length (req_outs reqs sh) = length reqs.
+Proof.
+  induction reqs as [|r reqs IH]; intros [|s st]; cbn [length req_outs scripts map fst]; intros H;
+    try (split; reflexivity); try lia.
+  destruct (IH st ltac:(lia)) as [H1 H2]. fold (scripts (req_outs reqs st)). rewrite H1, H2. auto.
+Qed.
+
+Lemma req_guard_true r :
+  req_guard r = true <-> 0 <= r_treasury r <= r_amount r /\ r_amount r < two63.
+Proof. unfold req_guard. rewrite !andb_true_iff, !Z.leb_le, Z.ltb_lt. tauto. Qed.
+
+Lemma req_outs_guarded reqs : forall sh,
+  forallb req_guard reqs = true -> shares_guard reqs sh = true ->
+  length sh = length reqs /\
+  implied_shares reqs (req_outs reqs sh) = sh /\
+  Forall (fun s => 0 <= s) sh /\
+  Forall (fun v => 0 <= v) (values (req_outs reqs sh)) /\
+  sumZ (values (req_outs reqs sh)) = sumZ (map redeemable reqs) - sumZ sh /\
+  0 <= sumZ sh <= sumZ (map redeemable reqs).
+Proof.
+  induction reqs as [|r reqs IH]; intros [|s st]; cbn [forallb shares_guard]; try discriminate.
+  - intros _ _. cbn. repeat split; try constructor; lia.
+  - rewrite !andb_true_iff, req_guard_true, !Z.leb_le. intros [Hr Hf] [[Hs1 Hs2] Hg].
+    destruct (IH st Hf Hg) as (H1 & H2 & H3 & H4 & H5 & H6).
+    unfold redeemable in Hs2.
+    cbn [length req_outs implied_shares combine map fst snd values].
+    fold (values (req_outs reqs st)). fold (implied_shares reqs (req_outs reqs st)).
+    unfold sub64. rewrite (w64_id (r_amount r - r_treasury r)) by (pose proof two63_pos; lia).
+    rewrite w64_id by (pose proof two63_pos; lia).
+    rewrite !sumZ_cons, H2, H5. unfold redeemable at 1 2 3.
+    repeat split; try lia; try (constructor; [lia|assumption]).
+    all: unfold redeemable in *; try (f_equal; lia); try lia.
+Qed.
+
+Lemma shares_guard_ideal_length reqs sh : shares_guard reqs sh = true -> length sh = length reqs.
+Proof.
+  revert sh. induction reqs as [|r reqs IH]; intros [|s st]; cbn [shares_guard]; try discriminate; [reflexivity|].
+  rewrite !andb_true_iff. intros [_ H]. cbn [length]. f_equal. apply IH, H.
+Qed.
+
+(* the shares the model uses, under the guard on the distribution *)
+Lemma fee_shares_guarded reqs d sh :
+  reqs <> [] -> dist_guard reqs d = true -> fee_shares d (length reqs) = Some sh ->
+  shares_guard reqs sh = true /\ sumZ sh = dist_total d /\ (forall l, d = DShares l -> sh = l).
+Proof.
+  intros Hne G E. destruct d as [fee|l]; cbn [dist_guard fee_shares dist_total] in *.
+  - apply andb_true_iff in G as [G Hs]. apply andb_true_iff in G as [G1 G2].
+    apply Z.leb_le in G1. apply Z.ltb_lt in G2.
+    assert (Hn : (0 < length reqs)%nat) by (destruct reqs; [congruence|cbn; lia]).
+    destruct (even_split_even fee (length reqs) ltac:(lia) Hn) as (E' & _).
+    rewrite E' in E. injection E as <-. split; [assumption|]. split; [apply ideal_shares_sum, Hn|discriminate].
+  - injection E as <-. split; [assumption|]. split; [reflexivity|]. intros l' [= ->]. reflexivity.
+Qed.
+
+Lemma firstn_all_len {A} (l : list A) n : length l = n -> firstn n l = l.
+Proof. intros <-. apply firstn_all. Qed.
+
+Lemma redemption_inv own main reqs d shape ins outs :
+  assemble_redemption own main reqs d shape = Tx ins outs ->
+  exists mu sh, main = Some mu /\ reqs <> [] /\ confirmed KPkh mu /\
+    fee_shares d (length reqs) = Some sh /\ (length reqs <= length sh)%nat /\
+    ins = [in_of mu] /\
+    let routs := req_outs reqs sh in
+    let change := sub64 (sub64 (total_inputs [in_of mu]) (w64 (sumZ (values routs))))
+                        (w64 (sumZ (firstn (length reqs) sh))) in
+    ((0 <? change) = true /\ shape = 0%N /\ outs = (own, change) :: routs \/
+     (0 <? change) = true /\ shape = 1%N /\ outs = routs ++ [(own, change)] \/
+     (0 <? change) = false /\ outs = routs).
+Proof.
+  unfold assemble_redemption. destruct main as [mu|]; [|discriminate].
+  destruct reqs as [|r0 reqs0] eqn:Er; [discriminate|]. rewrite <- Er.
+  assert (Hne : reqs <> []) by (rewrite Er; discriminate). clear Er.
+  destruct (add_input KPkh [] mu) as [b| |] eqn:Hm; cbn [bind]; try discriminate.
+  apply add_input_ok in Hm as [-> Hm]. cbn [app].
+  destruct (fee_shares d (length reqs)) as [sh|] eqn:Es; [|discriminate].
+  destruct (red_loop reqs sh [] 0 0) as [[[o tf] tr]|] eqn:El; [|discriminate].
+  pose proof (red_loop_spec reqs sh [] 0 0 o tf tr) as P. rewrite w64_0 in P.
+  destruct (P El) as (Hl & -> & -> & ->). cbn [app]. rewrite !Z.add_0_l.
+  intros H. exists mu, sh. repeat split; try assumption; try reflexivity.
+  - destruct (0 <? _) eqn:Hc in H; [destruct shape as [|[p|p|]]|]; try discriminate;
+      injection H as <- <-; reflexivity.
+  - cbv zeta. destruct (0 <? _) eqn:Hc in H |- *.
+    + destruct shape as [|[p|p|]]; try discriminate; injection H as <- <-; auto.
+    + injection H as <- <-. auto.
+Qed.
+
+Lemma split_change_none n shape outs :
+  length outs = n -> split_change n shape outs = Some (None, outs).
+Proof. intros <-. unfold split_change. rewrite Nat.eqb_refl. reflexivity. Qed.
+Lemma split_change_first n c routs :
+  length routs = n -> split_change n 0%N (c :: routs) = Some (Some c, routs).
+Proof.
+  intros <-. unfold split_change. cbn [length].
+  replace (S (length routs) =? length routs)%nat with false by (symmetry; apply Nat.eqb_neq; lia).
+  rewrite Nat.eqb_refl. reflexivity.
+Qed.
+Lemma split_change_last n c routs :
+  length routs = n -> split_change n 1%N (routs ++ [c]) = Some (Some c, routs).
+Proof.
+  intros <-. unfold split_change. rewrite app_length. cbn [length].
+  replace (length routs + 1 =? length routs)%nat with false by (symmetry; apply Nat.eqb_neq; lia).
+  replace (length routs + 1 =? S (length routs))%nat with true by (symmetry; apply Nat.eqb_eq; lia).
+  rewrite last_last, removelast_last. reflexivity.
+Qed.
+
+Lemma red_guard_true mu reqs shape :
+  red_guard mu reqs shape = true <->
+  (exists k, u_chain mu = COut k (u_value mu)) /\ 0 <= u_value mu < two63 /\
+  forallb req_guard reqs = true /\ sumZ (map redeemable reqs) <= u_value mu /\ (shape <= 1)%N.
+Proof.
+  unfold red_guard. rewrite !andb_true_iff, real_true, !Z.leb_le, Z.ltb_lt, N.leb_le. tauto.
+Qed.
+
+Lemma Forall_nonneg_forallb l : Forall (fun v => 0 <= v) l -> forallb (fun v => 0 <=? v) l = true.
+Proof. intros H. apply forallb_Forall. eapply Forall_impl; [|exact H]. intros v Hv. apply Z.leb_le, Hv. Qed.
+Lemma forallb_nonneg_Forall l : forallb (fun v => 0 <=? v) l = true -> Forall (fun v => 0 <= v) l.
+Proof. intros H. apply forallb_Forall in H. eapply Forall_impl; [|exact H]. intros v Hv. apply Z.leb_le, Hv. Qed.
+
+Lemma redemption_spec own mu reqs d shape ins outs :
+  assemble_redemption own (Some mu) reqs d shape = Tx ins outs ->
+  redemption_ok own mu reqs d shape ins outs = true.
+Proof.
+  intros H. apply redemption_inv in H as (mu' & sh & [= <-] & Hne & _ & Es & Hl & -> & H).
+  cbv zeta in H. destruct (req_outs_scripts reqs sh Hl) as [Hscr Hlen].
+  set (routs := req_outs reqs sh) in *.
+  set (change := sub64 _ _) in H.
+  unfold redemption_ok. rewrite io_eqb_refl. cbn [andb].
+  (* the facts available under the guard *)
+  assert (HG : red_guard mu reqs shape && dist_guard reqs d = true ->
+               implied_shares reqs routs = sh /\ sumZ sh = dist_total d /\
+               (forall l, d = DShares l -> sh = l) /\
+               Forall (fun s => 0 <= s) sh /\ Forall (fun v => 0 <= v) (values routs) /\
+               sumZ (values routs) = sumZ (map redeemable reqs) - sumZ sh /\
+               change = u_value mu - sumZ (map redeemable reqs) /\
+               sumZ (map redeemable reqs) <= u_value mu).
+  { intros G. apply andb_true_iff in G as [G1 G2].
+    apply red_guard_true in G1 as (_ & HV & Hreq & Hsol & _).
+    destruct (fee_shares_guarded reqs d sh Hne G2 Es) as (Hsg & Hsum & Hd).
+    destruct (req_outs_guarded reqs sh Hreq Hsg) as (L1 & L2 & L3 & L4 & L5 & L6).
+    fold routs in L2, L4, L5. repeat split; try assumption.
+    unfold change. rewrite total_inputs_spec. cbn [values map snd in_of]. rewrite sumZ_cons, sumZ_nil.
+    rewrite firstn_all_len by assumption. rewrite L5. pose proof two63_pos.
+    unfold sub64. rewrite (w64_id (u_value mu + 0)) by lia.
+    rewrite (w64_id (sumZ (map redeemable reqs) - sumZ sh)) by lia.
+    rewrite (w64_id (sumZ sh)) by lia.
+    rewrite (w64_id (u_value mu + 0 - _)) by lia. rewrite w64_id by lia. lia. }
+  destruct H as [(Hc & -> & ->)|[(Hc & -> & ->)|(Hc & ->)]].
+  - rewrite (split_change_first _ _ _ Hlen). rewrite Hscr, listN_eqb_refl. cbn [fst]. rewrite N.eqb_refl.
+    cbn [andb]. destruct (red_guard mu reqs 0 && dist_guard reqs d) eqn:G; cbn [negb orb]; [|reflexivity].
+    destruct (HG eq_refl) as (E1 & E2 & E3 & E4 & E5 & E6 & E7 & E8).
+    rewrite E1. cbn [snd values map in_of]. fold (values routs). rewrite !sumZ_cons, sumZ_nil, E6, E7.
+    apply Z.ltb_lt in Hc. rewrite E7 in Hc.
+    rewrite !andb_true_iff, !Z.eqb_eq, Z.ltb_lt.
+    repeat split; try assumption; try lia; try (apply Forall_nonneg_forallb; assumption).
+    destruct d as [fee|l]; [reflexivity|]. apply listZ_eqb_eq, E3. reflexivity.
+  - rewrite (split_change_last _ _ _ Hlen). rewrite Hscr, listN_eqb_refl. cbn [fst]. rewrite N.eqb_refl.
+    cbn [andb]. destruct (red_guard mu reqs 1 && dist_guard reqs d) eqn:G; cbn [negb orb]; [|reflexivity].
+    destruct (HG eq_refl) as (E1 & E2 & E3 & E4 & E5 & E6 & E7 & E8).
+    rewrite E1. cbn [snd values map in_of]. rewrite values_app, sumZ_app. cbn [values map snd].
+    rewrite !sumZ_cons, sumZ_nil, E6, E7.
+    apply Z.ltb_lt in Hc. rewrite E7 in Hc.
+    rewrite !andb_true_iff, !Z.eqb_eq, Z.ltb_lt.
+    repeat split; try assumption; try lia; try (apply Forall_nonneg_forallb; assumption).
+    destruct d as [fee|l]; [reflexivity|]. apply listZ_eqb_eq, E3. reflexivity.
+  - rewrite (split_change_none _ _ _ Hlen). rewrite Hscr, listN_eqb_refl.
+    cbn [andb]. destruct (red_guard mu reqs shape && dist_guard reqs d) eqn:G; cbn [negb orb]; [|reflexivity].
+    destruct (HG eq_refl) as (E1 & E2 & E3 & E4 & E5 & E6 & E7 & E8).
+    rewrite E1. cbn [snd values map in_of]. fold (values routs). rewrite !sumZ_cons, sumZ_nil, E6.
+    apply Z.ltb_ge in Hc. rewrite E7 in Hc.
+    rewrite !andb_true_iff, !Z.eqb_eq.
+    repeat split; try assumption; try lia; try (apply Forall_nonneg_forallb; assumption).
+    destruct d as [fee|l]; [reflexivity|]. apply listZ_eqb_eq, E3. reflexivity.
+Qed.
+
+(* ---------- the redemption guard and property as propositions ---------- *)
+Definition shares_fit (reqs : list request) (sh : list Z) : Prop :=
+  Forall2 (fun r s => 0 <= s <= r_amount r - r_treasury r) reqs sh.
+Lemma shares_guard_iff reqs : forall sh, shares_guard reqs sh = true <-> shares_fit reqs sh.
+Proof.
+  unfold shares_fit. induction reqs as [|r reqs IH]; intros [|s st]; cbn [shares_guard].
+  - split; [constructor|reflexivity].
+  - split; [discriminate|intros H; inversion H].
+  - split; [discriminate|intros H; inversion H].
+  - rewrite !andb_true_iff, !Z.leb_le, IH. unfold redeemable. split.
+    + intros [[H1 H2] H3]. constructor; [lia|assumption].
+    + intros H. inversion H; subst. repeat split; try lia. assumption.
+Qed.
+
+Definition dist_guardP (reqs : list request) (d : dist) : Prop :=
+  match d with
+  | DTotal fee => 0 <= fee < two63 /\ shares_fit reqs (ideal_shares fee (length reqs))
+  | DShares l => shares_fit reqs l
+  end.
+Lemma dist_guard_iff reqs d : dist_guard reqs d = true <-> dist_guardP reqs d.
+Proof.
+  destruct d as [fee|l]; cbn [dist_guard dist_guardP].
+  - rewrite !andb_true_iff, Z.leb_le, Z.ltb_lt, shares_guard_iff. tauto.
+  - apply shares_guard_iff.
+Qed.
+
+Definition red_guardP (mu : utxo) (reqs : list request) (d : dist) (shape : N) : Prop :=
+  (exists k, u_chain mu = COut k (u_value mu)) /\ 0 <= u_value mu < two63 /\
+  (forall r, In r reqs -> 0 <= r_treasury r <= r_amount r /\ r_amount r < two63) /\
+  sumZ (map redeemable reqs) <= u_value mu /\ (shape <= 1)%N /\
+  dist_guardP reqs d.
+Lemma red_guard_iff mu reqs d shape :
+  red_guard mu reqs shape && dist_guard reqs d = true <-> red_guardP mu reqs d shape.
+Proof.
+  unfold red_guardP. rewrite andb_true_iff, red_guard_true, dist_guard_iff, forallb_forall.
+  split.
+  - intros [(H1 & H2 & H3 & H4 & H5) H6]. repeat split; try assumption; try lia;
+      apply req_guard_true, H3; assumption.
+  - intros (H1 & H2 & H3 & H4 & H5 & H6). repeat split; try assumption; try lia.
+    intros r Hr. apply req_guard_true, H3, Hr.
+Qed.
+
+(* place the optional change output according to the shape *)
+Definition place (shape : N) (ch : option output) (routs : list output) : list output :=
+  match shape with 0%N => opt_list ch ++ routs | _ => routs ++ opt_list ch end.
+
+Definition redemption_prop (own : N) (mu : utxo) (reqs : list request) (d : dist) (shape : N)
+           (ins : list input) (outs : list output) : Prop :=
+  ins = [in_of mu] /\
+  exists (ch : option output) (routs : list output),
+    outs = place shape ch routs /\
+    scripts routs = map r_script reqs /\
+    (forall c, ch = Some c -> fst c = own) /\
+    (red_guardP mu reqs d shape ->
+       let shares := implied_shares reqs routs in
+       let change := u_value mu - sumZ (map redeemable reqs) in
+       sumZ shares = dist_total d /\
+       (forall l, d = DShares l -> shares = l) /\
+       Forall (fun s => 0 <= s) shares /\
+       Forall (fun v => 0 <= v) (values routs) /\
+       ch = (if 0 <? change then Some (own, change) else None) /\
+       sumZ (values ins) - sumZ (values outs) = dist_total d).
+
+Lemma split_change_inv n shape outs ch routs :
+  split_change n shape outs = Some (ch, routs) -> outs = place shape ch routs.
+Proof.
+  unfold split_change, place. destruct (length outs =? n)%nat.
+  - intros [= <- <-]. cbn [opt_list app]. rewrite app_nil_r. destruct shape; reflexivity.
+  - destruct (length outs =? S n)%nat eqn:E; [|discriminate]. destruct shape as [|p].
+    + destruct outs as [|c t]; [discriminate|]. intros [= <- <-]. reflexivity.
+    + intros [= <- <-]. cbn [opt_list]. apply app_removelast_last.
+      destruct outs; [discriminate|discriminate].
+Qed.
+
+Lemma redemption_ok_sound own mu reqs d shape ins outs :
+  redemption_ok own mu reqs d shape ins outs = true ->
+  redemption_prop own mu reqs d shape ins outs.
+Proof.
+  unfold redemption_ok, redemption_prop. rewrite andb_true_iff, io_eqb_eq. intros [-> H].
+  split; [reflexivity|].
+  destruct (split_change (length reqs) shape outs) as [[ch routs]|] eqn:Es; [|discriminate].
+  apply split_change_inv in Es. exists ch, routs. split; [assumption|].
+  rewrite !andb_true_iff, listN_eqb_eq in H. destruct H as [[Hscr Hown] Hg].
+  split; [assumption|]. split.
+  { intros c ->. apply N.eqb_eq, Hown. }
+  intros G. apply red_guard_iff in G. rewrite G in Hg. cbn [negb orb] in Hg. cbv zeta.
+  rewrite !andb_true_iff, !Z.eqb_eq in Hg. destruct Hg as [[[[[H1 H2] H3] H4] H5] H6].
+  split; [assumption|]. split.
+  { intros l ->. apply listZ_eqb_eq, H2. }
+  split; [apply forallb_nonneg_Forall, H3|]. split; [apply forallb_nonneg_Forall, H4|].
+  split; [|assumption].
+  destruct ch as [[s v]|].
+  - apply andb_true_iff in H5 as [Hv Hp]. apply Z.eqb_eq in Hv. cbn [snd] in Hv, Hp.
+    rewrite <- Hv, Hp. cbn [fst] in Hown. apply N.eqb_eq in Hown. subst s. reflexivity.
+  - apply Z.eqb_eq in H5. rewrite H5, Z.sub_diag. reflexivity.
+Qed.
+
+Theorem redemption_correct own main reqs d shape ins outs :
+  assemble_redemption own main reqs d shape = Tx ins outs ->
+  exists mu, main = Some mu /\ reqs <> [] /\ confirmed KPkh mu /\
+    redemption_prop own mu reqs d shape ins outs.
+Proof.
+  intros H. pose proof H as H'. apply redemption_inv in H' as (mu & sh & -> & Hne & Hc & _).
+  exists mu. split; [reflexivity|]. split; [assumption|]. split; [assumption|].
+  apply redemption_ok_sound, redemption_spec, H.
+Qed.
+
+(* with the production fee distribution the transaction is always assembled when the chain
+   confirms the main UTXO and the shape is a known one *)
+Theorem redemption_accepts own mu reqs fee shape :
+  reqs <> [] -> confirmed KPkh mu -> (shape <= 1)%N -> - two63 <= fee < two63 ->
+  exists ins outs, assemble_redemption own (Some mu) reqs (DTotal fee) shape = Tx ins outs.
+Proof.
+  intros Hne Hc Hs Hfee. unfold assemble_redemption.
+  destruct reqs as [|r0 reqs0] eqn:Er; [congruence|]. rewrite <- Er.
+  rewrite (add_input_complete _ _ _ Hc). cbn [bind fee_shares].
+  destruct (even_split fee (length reqs)) as [sh|] eqn:E.
+  2:{ rewrite Er in E. cbn [length] in E. rewrite even_split_exact in E by assumption. discriminate. }
+  destruct (even_split_sum _ _ _ Hfee E) as [Hl _].
+  destruct (red_loop_complete reqs sh [] 0 0 ltac:(lia)) as [[[o tf] tr] ->].
+  destruct (0 <? _); [|eauto].
+  destruct shape as [|[p|p|]]; try lia; eauto.
+Qed.
+
+(* ====================================================================================
+   the executable property holds of every model output
+   ==================================================================================== *)
+Theorem model_outputs_pass_spec c : case_wf c = true -> agree c = true -> spec_ok c = true.
+Proof.
+  intros Hwf Ha. destruct c as [own main ds fee o|own main reqs d shape o|main targets fee o
+                              |own m main fee o|total n o]; cbn [agree model] in Ha; cbn [spec_ok].
+  - apply res_eqb_eq in Ha. subst o.
+    destruct (assemble_deposit_sweep own main ds fee) as [ins outs| |] eqn:E; try reflexivity.
+    apply deposit_sweep_spec, E.
+  - apply res_eqb_eq in Ha. subst o.
+    destruct (assemble_redemption own main reqs d shape) as [ins outs| |] eqn:E;
+      destruct main as [mu|]; try reflexivity.
+    + apply redemption_spec, E.
+    + discriminate.
+  - apply res_eqb_eq in Ha. subst o.
+    destruct (assemble_moving_funds main targets fee) as [ins outs| |] eqn:E;
+      destruct main as [mu|]; try reflexivity.
+    + apply moving_funds_spec, E.
+    + destruct targets; discriminate.
+  - apply res_eqb_eq in Ha. subst o.
+    destruct (moved_funds_sweep own m main fee) as [ins outs| |] eqn:E; try reflexivity.
+    destruct (moved_funds_sweep_spec _ _ _ _ _ _ E) as (mu & -> & H). exact H.
+  - cbn [case_wf] in Hwf. apply andb_true_iff in Hwf as [Ht _]. apply in64_true in Ht.
+    pose proof (fee_shares_model_ok total n Ht) as H.
+    destruct o as [a|], (even_split total n) as [b|]; try discriminate; try reflexivity.
+    apply listZ_eqb_eq in Ha. subst a. exact H.
+Qed.
+
+(* ... and implies the stated property, per kind of case *)
+Definition case_prop (c : case) : Prop :=
+  match c with
+  | CDepositSweep own main ds fee (Tx ins outs) =>
+      sweep_prop own (opt_list main ++ map d_utxo ds) fee ins outs
+  | CRedemption own main reqs d shape (Tx ins outs) =>
+      exists mu, main = Some mu /\ redemption_prop own mu reqs d shape ins outs
+  | CMovingFunds main targets fee (Tx ins outs) =>
+      exists mu, main = Some mu /\ moving_funds_prop mu targets fee ins outs
+  | CMovedFundsSweep own m main fee (Tx ins outs) =>
+      exists mu, moved_utxo m = SOk (Some mu) /\ sweep_prop own (mu :: opt_list main) fee ins outs
+  | CFeeShares total n (Some l) =>
+      length l = n /\ sumZ l = total /\ (0 <= total -> Forall (fun s => 0 <= s) l)
+  | _ => True
+  end.
+
+Theorem spec_ok_sound c : spec_ok c = true -> case_prop c.
+Proof.
+  destruct c as [own main ds fee o|own main reqs d shape o|main targets fee o
+                |own m main fee o|total n o]; cbn [spec_ok case_prop].
+  - destruct o; auto. apply sweep_ok_sound.
+  - destruct o; auto. destruct main as [mu|]; [|discriminate].
+    intros H. exists mu. split; [reflexivity|]. apply redemption_ok_sound, H.
+  - destruct o; auto. destruct main as [mu|]; [|discriminate].
+    intros H. exists mu. split; [reflexivity|]. apply moving_funds_ok_sound, H.
+  - destruct o; auto. unfold moved_intended.
+    destruct (moved_utxo m) as [[mu|]| |]; try discriminate.
+    intros H. exists mu. split; [reflexivity|]. apply sweep_ok_sound, H.
+  - destruct o as [l|]; auto. apply fee_shares_ok_sound.
+Qed.
+
+(* ====================================================================================
+   the guards are needed: the unguarded statements are false of the code
+   ==================================================================================== *)
+(* the value the chain holds for the outpoint of a UTXO *)
+Definition chain_value (u : utxo) : Z := match u_chain u with COut _ v => v | _ => 0 end.
+
+(* an insolvent wallet (main UTXO 100 < redeemable 200): no change output, and the difference
+   between inputs and outputs is -90, not the proposed fee 10 *)
+Theorem redemption_conservation_unguarded_refuted :
+  exists own mu reqs fee shape ins outs,
+    assemble_redemption own (Some mu) reqs (DTotal fee) shape = Tx ins outs /\
+    sumZ (values ins) - sumZ (values outs) <> fee.
+Proof.
+  exists 1%N, {| u_op := 1; u_value := 100; u_chain := COut KPkh 100 |},
+         [{| r_script := 2; r_amount := 200; r_treasury := 0 |}], 10, 0%N,
+         [(1%N, 100)], [(2%N, 190)].
+  split; [vm_compute; reflexivity|vm_compute; discriminate].
+Qed.
+
+(* fee above the value of the main UTXO: Go's % is negative, the outputs are -1, -1, -3 and not
+   the even split -2, -2, -1 of the (floor) division; every output is negative *)
+Theorem moving_funds_split_unguarded_refuted :
+  exists mu targets fee ins outs,
+    assemble_moving_funds (Some mu) targets fee = Tx ins outs /\
+    let total := u_value mu - fee in
+    let n := Z.of_nat (length targets) in
+    values outs <> repeat (total / n) (length targets - 1) ++ [total / n + total mod n] /\
+    ~ Forall (fun v => 0 <= v) (values outs).
+Proof.
+  exists {| u_op := 1; u_value := 10; u_chain := COut KPkh 10 |}, [1%N; 2%N; 3%N], 15,
+         [(1%N, 10)], [(1%N, -1); (2%N, -1); (3%N, -3)].
+  split; [vm_compute; reflexivity|]. split; [vm_compute; discriminate|].
+  intros H. inversion H as [|? ? H1 _]. vm_compute in H1. apply H1. reflexivity.
+Qed.
+
+(* int64 wrap-around: fee = -2^63 *)
+Theorem sweep_conservation_int64_refuted :
+  exists own ds fee ins outs,
+    assemble_deposit_sweep own None ds fee = Tx ins outs /\ - two63 <= fee < two63 /\
+    sumZ (values ins) - sumZ (values outs) <> fee.
+Proof.
+  exists 1%N, [{| d_utxo := {| u_op := 1; u_value := 1; u_chain := COut KSh 1 |}; d_script_ok := true |}],
+         (-9223372036854775808), [(1%N, 1)], [(1%N, -9223372036854775807)].
+  split; [vm_compute; reflexivity|]. split; [vm_compute; split; [discriminate|reflexivity]|].
+  vm_compute. discriminate.
+Qed.
+
+(* the builder records the CLAIMED value of a UTXO: when it is not the chain's value the real
+   fee (chain values of the inputs minus outputs) is not the proposed one *)
+Theorem sweep_claimed_value_refuted :
+  exists own ds fee ins outs,
+    assemble_deposit_sweep own None ds fee = Tx ins outs /\
+    sumZ (map chain_value (map d_utxo ds)) - sumZ (values outs) <> fee.
+Proof.
+  exists 1%N, [{| d_utxo := {| u_op := 1; u_value := 100; u_chain := COut KSh 60 |}; d_script_ok := true |}],
+         10, [(1%N, 100)], [(1%N, 90)].
+  split; [vm_compute; reflexivity|vm_compute; discriminate].
+Qed.
+
+(* fee above the swept value: a negative output *)
+Theorem sweep_fee_above_value_refuted :
+  exists own ds fee ins outs,
+    assemble_deposit_sweep own None ds fee = Tx ins outs /\
+    ~ Forall (fun v => 0 <= v) (values outs).
+Proof.
+  exists 1%N, [{| d_utxo := {| u_op := 1; u_value := 100; u_chain := COut KSh 100 |}; d_script_ok := true |}],
+         101, [(1%N, 100)], [(1%N, -1)].
+  split; [vm_compute; reflexivity|].
+  intros H. inversion H as [|? ? H1 _]. vm_compute in H1. apply H1. reflexivity.
+Qed.
+
+(* ====================================================================================
+   the hypotheses are satisfiable
+   ==================================================================================== *)
+Example deposit_sweep_example :
+  let main := Some {| u_op := 1; u_value := 500; u_chain := COut KPkh 500 |} in
+  let ds := [{| d_utxo := {| u_op := 2; u_value := 100; u_chain := COut KSh 100 |}; d_script_ok := true |};
+             {| d_utxo := {| u_op := 3; u_value := 200; u_chain := COut KSh 200 |}; d_script_ok := true |}] in
+  assemble_deposit_sweep 1 main ds 30 = Tx [(1%N, 500); (2%N, 100); (3%N, 200)] [(1%N, 770)] /\
+  sweep_guardP (opt_list main ++ map d_utxo ds) 30.
+Proof. split; [vm_compute; reflexivity|apply sweep_guard_iff; vm_compute; reflexivity]. Qed.
+
+Example redemption_example :
+  let mu := {| u_op := 1; u_value := 1000; u_chain := COut KPkh 1000 |} in
+  let reqs := [{| r_script := 2; r_amount := 200; r_treasury := 10 |};
+               {| r_script := 3; r_amount := 300; r_treasury := 0 |};
+               {| r_script := 4; r_amount := 50; r_treasury := 5 |}] in
+  assemble_redemption 1 (Some mu) reqs (DTotal 20) 0 =
+    Tx [(1%N, 1000)] [(1%N, 465); (2%N, 184); (3%N, 294); (4%N, 37)] /\
+  assemble_redemption 1 (Some mu) reqs (DTotal 20) 1 =
+    Tx [(1%N, 1000)] [(2%N, 184); (3%N, 294); (4%N, 37); (1%N, 465)] /\
+  red_guardP mu reqs (DTotal 20) 0.
+Proof.
+  split; [vm_compute; reflexivity|]. split; [vm_compute; reflexivity|].
+  apply red_guard_iff. vm_compute. reflexivity.
+Qed.
+
+Example moving_funds_example :
+  let mu := {| u_op := 1; u_value := 1001; u_chain := COut KPkh 1001 |} in
+  assemble_moving_funds (Some mu) [5%N; 6%N; 7%N] 10 =
+    Tx [(1%N, 1001)] [(5%N, 330); (6%N, 330); (7%N, 331)] /\
+  mf_guardP mu 10.
+Proof. split; [vm_compute; reflexivity|apply mf_guard_iff; vm_compute; reflexivity]. Qed.
+
+Example moved_funds_sweep_example :
+  let e := COut KPkh 700 in
+  let main := Some {| u_op := 2; u_value := 300; u_chain := COut KPkh 300 |} in
+  moved_funds_sweep 1 (MChain 1 e) main 25 = Tx [(1%N, 700); (2%N, 300)] [(1%N, 975)] /\
+  sweep_guardP ({| u_op := 1; u_value := 700; u_chain := e |} :: opt_list main) 25.
+Proof. split; [vm_compute; reflexivity|apply sweep_guard_iff; vm_compute; reflexivity]. Qed.
